@@ -5,7 +5,7 @@
    of threads.  Models: Model.v; contracts as history monitors: Spec.v. *)
 From God Require Import Base.Prelude C18.Conc C18.Spec C18.Model.
 From Coq Require Import Sorting.Permutation.
-From God Require Import C18.ProofsSF C18.ProofsLC C18.ProofsAO C18.ProofsPool C18.ProofsRM C18.ProofsTL C18.ProofsRef.
+From God Require Import C18.ProofsSF C18.ProofsLC C18.ProofsAO C18.ProofsPool C18.ProofsRM C18.ProofsTL C18.ProofsRef C18.ProofsMR.
 
 (* ---------------------------------------------------------------- SingleFlight *)
 (* every history is accepted by the sharing contract (Spec.sf_mon_step): a call that reports a
@@ -319,6 +319,50 @@ Theorem c18_barrier_exclusive : forall scripts sched t u,
 Proof. exact bar_exclusive. Qed.
 Print Assumptions c18_barrier_exclusive.
 
+(* ---------------------------------------------------------------- ManagedResource *)
+(* the current resource is always the latest one generated (generate runs only when there is none, so
+   a freshly generated resource that nobody reported is never discarded and never regenerated); the
+   write lock -- under which the user's equal callback runs, however long it blocks -- is exclusive;
+   a MarkBroken discards the current resource only if it is the one it was given; Take's slow path
+   returns the current resource *)
+Theorem c18_managed_no_discard : forall scripts sched,
+  let s := run MR.step sched (MR.init scripts) in
+  (MR.cur s = 0 \/ MR.cur s = MR.ngen s) /\
+  (forall t u, MR.wholds (MR.t_pc (MR.ts s t)) = true -> MR.wholds (MR.t_pc (MR.ts s u)) = true -> t = u) /\
+  (forall t, MR.t_pc (MR.ts s t) = MR.MSet true -> MR.cur s = MR.t_arg (MR.ts s t) /\ MR.cur s <> 0) /\
+  (forall t r, MR.t_pc (MR.ts s t) = MR.TWUnlock r -> MR.cur s = r /\ r <> 0).
+Proof. exact MRP.mr_no_discard. Qed.
+Print Assumptions c18_managed_no_discard.
+
+Theorem c18_managed_generate_when_empty : forall s t, MR.t_pc (MR.ts s t) = MR.TGen ->
+  exists s', MR.step (Thr t) s = Some s' /\
+    ((MR.cur s = 0 /\ MR.ngen s' = S (MR.ngen s) /\ MR.cur s' = S (MR.ngen s)) \/
+     (MR.cur s <> 0 /\ MR.ngen s' = MR.ngen s /\ MR.cur s' = MR.cur s)).
+Proof. exact MRP.mr_generate_step. Qed.
+Print Assumptions c18_managed_generate_when_empty.
+
+(* ---------------------------------------------------------------- ImmutableResource
+   (not named in the sentences of the statement; attached to its title, "sharing contracts", and to
+   the anchored file immutableresource.go) *)
+(* only a value returned by a SUCCESSFUL fetch is ever stored as the shared resource *)
+Theorem c18_immutable_only_success_shared : forall interval scripts sched,
+  let s := run (IR.step interval) sched (IR.init scripts) in IR.res s = 0 \/ In (IR.res s) (IR.goods s).
+Proof. exact IRP.ir_only_success_shared. Qed.
+Print Assumptions c18_immutable_only_success_shared.
+
+(* a failing fetch records the error and leaves the resource alone, whatever value came with the error *)
+Theorem c18_immutable_failed_fetch_keeps : forall s t interval, IR.t_pc (IR.ts s t) = IR.IStore -> IR.t_fail (IR.ts s t) <> 0 ->
+  exists s', IR.step interval (Thr t) s = Some s' /\ IR.res s' = IR.res s /\ IR.err s' = 1.
+Proof. exact IRP.ir_failed_fetch_keeps. Qed.
+Print Assumptions c18_immutable_failed_fetch_keeps.
+
+(* a fetch is attempted only if none was attempted before or the refresh interval has passed *)
+Theorem c18_immutable_retry_interval : forall s t interval l n, IR.t_pc (IR.ts s t) = IR.IDecide l n ->
+  exists s', IR.step interval (Thr t) s = Some s' /\
+    (IR.t_pc (IR.ts s' t) = IR.IFetchB <-> (l = 0 \/ l + interval < n)) /\ (IR.t_pc (IR.ts s' t) = IR.IFetchB -> IR.last s' = n).
+Proof. exact IRP.ir_retry_interval. Qed.
+Print Assumptions c18_immutable_retry_interval.
+
 (* ---------------------------------------------------------------- non-vacuity *)
 (* three threads, same key, forced overlap: the two late-comers share thread 0's execution; a later
    call by thread 0 executes afresh *)
@@ -363,6 +407,20 @@ Example c18_rm_close_with_failing_resource :
   let fin := replay RM.step RM.busy 80 [0] [Thr 0; Thr 0; Thr 0] (RM.init scr) in
   (RM.t_res (RM.ts fin 0), RM.closedids fin) = ([(1, 0); (2, 0); (1001, 0)], [2; 1001]).
 Proof. vm_compute. reflexivity. Qed.
+
+(* two holders report the same r1 while the first equal call blocks, a Take lands in between: generate
+   runs exactly twice, everybody ends up with r2 *)
+Example c18_managed_two_reports_one_take :
+  let scr := fun t => match t with 0 => [mkop 0 0 0 0; mkop 1 1 1 0; mkop 0 0 0 0] | 1 => [mkop 1 1 0 0; mkop 0 0 0 0] | 2 => [mkop 0 0 0 0] | _ => [] end in
+  let fin := replay MR.step MR.busy 80 [0;1;2] [Thr 0; Thr 0; Thr 1; Thr 2; Open 1; Thr 0; Thr 1] (MR.init scr) in
+  (MR.ngen fin, MR.cur fin, map (fun t => MR.t_res (MR.ts fin t)) [0;1;2]) = (2, 2, [[(2, 0); (0, 0); (1, 0)]; [(2, 0); (0, 0)]; [(2, 0)]]).
+Proof. vm_compute. reflexivity. Qed.
+
+(* boundary size 0: TryBorrow fails, Return is an error *)
+Example c18_limit_zero :
+  (LIM.sstep 0 LIM.init 0 (mkop 1 0 0 0), LIM.sstep 0 LIM.init 0 (mkop 2 0 0 0), LIM.sstep 0 LIM.init 0 (mkop 0 0 0 0))
+  = (Some (LIM.init, 0), Some (LIM.init, 1), None).
+Proof. reflexivity. Qed.
 
 Example c18_limit_return_without_borrow :
   LIM.sstep 2 LIM.init 0 (mkop 2 0 0 0) = Some (LIM.init, 1).
